@@ -2,11 +2,16 @@
 """Write seeded/TESTS.md and fill meta.json verified.tests from the seed test queue log (/tmp/vs/results.txt)."""
 import json, os, re
 rows = []
-for line in open("/tmp/vs/results.txt"):
+LINES = [(1, l) for l in open("/tmp/vs/results.txt")]
+if os.path.exists("/tmp/vs/results2.txt"):
+    LINES += [(2, l) for l in open("/tmp/vs/results2.txt")]
+for rnd, line in LINES:
     m = re.match(r"^(C\d+) (\d+) rc=(\S+) \| \[tests: ([^\]]*)\] (.*)$", line.strip())
     if not m:
         continue
     P, K, rc, tests, rest = m.groups()
+    if rnd == 2:  # round-2 seed K of P is stored as P_<K+2>, or P_<K> for properties that had no round 1
+        K = str(int(K) + 2) if os.path.isdir(f"/verif/seeded/{P}_{int(K) + 2}") else K
     tm = re.search(r"tests exit=(\d+) =+ ([^=]+?) =+", rest)
     summ = tm.group(2).strip() if tm else ("patch did not apply to the HEAD of that moment (re-rolled later, see meta.json)" if rc.startswith("3") else rest[-120:])
     rows.append((f"{P}_{K}", rc, tests.strip(), summ))
